@@ -17,5 +17,11 @@ TEXTS = {
         level_text="Generated-schedule search: hundreds (quick) to ~10000 (thorough, plus a -race pass) generated producer/broker/shutdown scripts are executed against the real writer and FIFO; the oracle decodes every message handed to the broker and checks exactly-once, order, batch bound, partition keys, non-blocking producers and flush-on-Close. Exploration level because goroutine interleavings inside the writer are sampled, not enumerated.",
         level_note="Trusts: hook H1 constructs the writer like NewWriterWithTopic (same struct literal, both loops); the Kafka client itself is outside the check.",
     ),
+    "C11": dict(
+        engine="inprocess-rapid",
+        technique="property-based testing (rapid): generated role trees and leaf-update histories (sequential and concurrent) against an independent fold written from the statement, compared on every node after every step; metamorphic permutation of children and arrival order; exhaustive enumeration of the State.X/Status.X algebra",
+        level_text="Generated-history search with a reference model: thousands of generated trees x update sequences, every node compared with the fold after each step; concurrent batches compared at quiescence (and under -race in the thorough tier); the finite state/status algebra is enumerated completely. Exploration level: tree shapes and histories are unbounded, interleavings of concurrent updates are sampled.",
+        level_note="Trusts overlay hook H2 to build the tree like workflow.Load does before template processing; leaf values restricted to those the task manager sends.",
+    ),
 }
 NA_REASONS = {}
